@@ -382,22 +382,26 @@ Proof.
     apply (NoDup_nth_error_inj (conns s) k i (sl_conn r) (nd_conns HK)); apply nth_error_map_Some; eauto.
 Qed.
 
+Lemma filter_cons_length {A} (f : A -> bool) x l :
+  length (filter f (x :: l)) = ((if f x then 1 else 0) + length (filter f l))%nat.
+Proof. cbn [filter]. destruct (f x); reflexivity. Qed.
+
 Lemma unblocked_count s i r : InvK s -> get_slot s i = Some r -> forall ps n,
   (forall p, In p ps -> (pk_slot p < length (b_slots s))%nat) ->
   (length (filter (placed_on i) (map (resolve_pick s) ps)) =
    length (filter (placed_on i) ps) + handed (sl_conn r) (unblocked_from s n ps))%nat.
 Proof.
   intros HK Hr. unfold handed. induction ps as [|p ps IH]; intros n Hv; [reflexivity|].
-  cbn [map unblocked_from filter]. rewrite filter_app, app_length.
+  cbn [map unblocked_from]. rewrite filter_app, app_length, !filter_cons_length.
   rewrite (IH (S n)) by (intros q Hq; apply Hv; right; exact Hq).
   unfold resolve_pick at 1. destruct (resolvable s p) eqn:Ers.
   - assert (Hb : placed_on i p = false).
     { unfold resolvable, is_blocked in Ers. unfold placed_on. destruct (pk_status p); try discriminate. reflexivity. }
-    rewrite Hb. cbn [filter snd].
+    rewrite Hb, filter_cons_length. cbn [snd filter length].
     rewrite (slot_conn_of_iff s i r (pk_slot p) HK Hr) by (apply Hv; left; reflexivity).
     unfold placed_on at 1, unblock_pick; sb.
-    destruct (Nat.eqb (pk_slot p) i); cbn [length]; lia.
-  - cbn [filter length]. destruct (placed_on i p); cbn [length]; lia.
+    destruct (Nat.eqb (pk_slot p) i); lia.
+  - cbn [filter length]. destruct (placed_on i p); lia.
 Qed.
 
 Lemma resolve_blocked_streams_count s s' l i r :
